@@ -545,6 +545,11 @@ def run(tier, seed):
         sb.append((p, k))
     extra = extra_programs(tier)
     sb += [(p, 1 if tier == "quick" else 2) for p in extra]
+    if tier == "quick":
+        # id re-use after a close while abandoned data is still being reported (found at k = 2 by the thorough tier)
+        deep = [program_name(EXTRA_SCRIPTS[3], "idle", "A", rel) for rel in RELIABILITY if rel != "rel"]
+        sb += [(p, 2) for p in deep]
+        extra = extra + deep
     progs = progs + extra
     labels = [("label:%d:%d:%s" % (i, j, rel), 0) for i in range(len(TEXTS)) for j in range(len(TEXTS))
               for rel in (("rel",) if (i + j) % 3 else tuple(RELIABILITY))]
